@@ -88,7 +88,7 @@ def long_session_probe(ctx):
 
 
 def correspondence(ctx):
-    n = 400 if ctx.tier == "thorough" else 50
+    n = 400 if ctx.tier == "thorough" else 52
     CC.run_sessions(ctx, "C16", n, lambda rng: dict(n_events=rng.choice([40,70]), burst=0.3, fault=0.05, bad=0.05, resets=0.25), lambda rng: dict(save=rng.random()<0.6, max_steps=rng.choice([1,2,3,5])), scale=True)
     long_session_probe(ctx)
 
